@@ -143,13 +143,17 @@ def spline(potential_forms, potential_form_builder):
   pot1 = pform._replace(next = None)
   pot2 = pform.next._replace(next = None)
 
+  # ... any of the three parts may be a potential modifier, which has no potential_form label.
+  def label(defn):
+    return getattr(defn, 'potential_form', None) or "{}()".format(getattr(defn, 'modifier', defn))
+
   allowed_spline_types = [s.spline_keyword for s in spline_factories]
-  if not pot2.potential_form in allowed_spline_types:
+  if not label(pot2) in allowed_spline_types:
     allowed_spline_types_str = ["'{}'".format(t) for t in allowed_spline_types]
     allowed_spline_types_str = ",".join(allowed_spline_types_str)
     raise ConfigurationException("spline modifier only accepts spline types {} for middle potential form. '{}' was found instead".format(
       allowed_spline_types_str,
-      pot2.potential_form))
+      label(pot2)))
 
   if pform.next.next is None:
     raise ConfigurationException("spline modifier requires three sub-potentials to be defined only two specified.")
@@ -187,9 +191,9 @@ def spline(potential_forms, potential_form_builder):
   spline_factory = [s for s in spline_factories if s.spline_keyword == pot2.potential_form ][0]
 
   logger.debug("spline modifier: connecting '{}' with {} to '{}' in range {} to {}".format(
-    pot1.potential_form,
-    pot2.potential_form,
-    pot2.potential_form,
+    label(pot1),
+    label(pot2),
+    label(pot3),
     detach_point, attach_point))
 
   # Now build the spline object
@@ -225,7 +229,7 @@ def trans(potential_forms, potential_form_builder):
     raise ConfigurationException("trans() potential modifier only accepts two arguments")
 
   second_form = potential_forms[1]
-  if second_form.potential_form != 'as.constant':
+  if getattr(second_form, 'potential_form', None) != 'as.constant':
     raise ConfigurationException("the second argument to the trans() potential modifier must be 'as.constant' found {}".format(second_form))
 
   if len(second_form.parameters) != 1:
